@@ -139,6 +139,116 @@ def case1(args):
     return res
 
 
+# ---------------------------------------------------------------- class / namespace scenario
+PSCEN_DRIVER = r"""
+import sys
+import cee
+def show(tag, fn):
+    try:
+        r = fn()
+        print("OBS %s -> %r" % (tag, r))
+    except (TypeError, ValueError) as e:
+        print("OBS %s raises TypeError/ValueError" % tag)
+    except BaseException as e:
+        print("OBS %s raises %s" % (tag, type(e).__name__))
+    sys.stdout.flush()
+a = cee.Cls(5)
+b = cee.Cls(id=9)
+show("ids", lambda: (a.id(), b.id()))
+show("add", lambda: (a.add(3), b.add(x=4), a.add(-1)))
+show("twice", lambda: (cee.Cls.twice(21), a.twice(x=2)))
+show("rename", lambda: (b.rename("bee"), a.rename(name="")))
+show("names", lambda: (a.name(), b.name()))
+show("find", lambda: (cee.findCls(0).id(), cee.findCls(id=3).id()))
+r = cee.newCls(7)
+show("new", lambda: (r.id(), r.add(1), type(r) is cee.Cls))
+show("color", lambda: (cee.nextColor(cee.RED), cee.nextColor(cee.GREEN), cee.nextColor(c=cee.BLUE)))
+show("over", lambda: (cee.over(4), cee.over(-1.5)))
+show("dflt", lambda: (cee.dflt(3), cee.dflt(3, 4), cee.dflt(3, b=5), cee.dflt(a=6)))
+show("tmpl", lambda: (cee.tmpl(41), cee.tmpl(1.25)))
+show("order", lambda: (cee.order(1, 2.5, "three", True), cee.order(d=False, c="", b=-2.5, a=-1)))
+show("ns", lambda: cee.ns.nsf(1))
+show("bad-add", lambda: a.add("x"))
+show("bad-ctor", lambda: cee.Cls())
+show("bad-over", lambda: cee.over("text"))
+show("bad-extra", lambda: a.id(1))
+show("bad-kw", lambda: cee.dflt(3, nosuch=1))
+"""
+
+
+def python_scenario(args):
+    workdir, lang = args
+    import yaml as _y
+
+    from . import c02
+
+    y = _y.safe_load(c02.SCEN_YAML)
+    y["options"] = {"wrap_fortran": False, "wrap_c": False, "wrap_python": True, "wrap_lua": False, "PY_array_arg": "list"}
+    # left out: by-value class result, class-pointer free function, nested namespace (they do not build or crash: C05 / known findings),
+    # the const / non-const pair (no documented rule says which one Python reaches)
+    y["declarations"] = [d for d in y["declarations"] if not d["decl"].startswith(("Cls valCls", "void takes"))]
+    for d in y["declarations"]:
+        if d["decl"] == "namespace ns":
+            d["declarations"] = [x for x in d["declarations"] if not x["decl"].startswith("namespace")]
+        if d["decl"] == "class Cls":
+            d["declarations"] = [m for m in d["declarations"] if "which" not in m["decl"]]
+    os.makedirs(workdir)
+    r, tree = gen.gen_tree(workdir, y, keep=True)
+    if r.status != "ok":
+        shutil.rmtree(workdir, ignore_errors=True)
+        return [("generate", "scenario", "%s %s: %s" % (r.status, r.exc, (r.msg or "")[:300]))], 0
+    out = os.path.join(workdir, "out")
+    open(os.path.join(out, "cee.hpp"), "w").write(c02.SCEN_HPP)
+    open(os.path.join(out, "subject.cpp"), "w").write(c02.SCEN_CPP)
+    open(os.path.join(out, "driver.py"), "w").write(PSCEN_DRIVER)
+    try:
+        csrc = sorted(f for f in os.listdir(out) if f.endswith(".cpp"))
+        objs = build.compile_c_family(out, csrc, "cxx", incs=[PYINC], extra=["-fPIC"])
+        rc, so, se = build.sh(["g++", "-shared", "-o", "cee.so"] + objs, out)
+        if rc != 0:
+            raise build.BuildError("link", se[:800])
+    except build.BuildError as e:
+        shutil.rmtree(workdir, ignore_errors=True)
+        return [("build", "scenario", str(e)[:900])], 0
+    env = dict(os.environ, VT_TRACE=os.path.join(out, "trace.txt"), PYTHONDONTWRITEBYTECODE="1")
+    rc, so, se = build.sh([PY, "driver.py"], out, env=env, timeout=120)
+    tr = open(os.path.join(out, "trace.txt"), errors="replace").read() if os.path.exists(os.path.join(out, "trace.txt")) else ""
+    got_obs = [l for l in so.split("\n") if l.startswith("OBS ")]
+    got_recv = [l for l in tr.split("\n") if l.startswith("RECV ")]
+    D = A.NATIVE["double"]
+    exp_obs = ["OBS ids -> (5, 9)", "OBS add -> (8, 13, 4)", "OBS twice -> (42, 4)", "OBS rename -> (None, None)", "OBS names -> ('', 'bee')",
+               "OBS find -> (100, 101)", "OBS new -> (7, 8, True)", "OBS color -> (3, 4, 0)", "OBS over -> (None, None)", "OBS dflt -> (32, 34, 35, 62)",
+               "OBS tmpl -> (42, 2.5)", "OBS order -> (None, None)", "OBS ns -> 2", "OBS bad-add raises TypeError/ValueError",
+               "OBS bad-ctor raises TypeError/ValueError", "OBS bad-over raises TypeError/ValueError", "OBS bad-extra raises TypeError/ValueError",
+               "OBS bad-kw raises TypeError/ValueError"]
+    exp_recv = ["RECV Cls::Cls id=5", "RECV Cls::Cls id=9", "RECV Cls::add this=5 x=3", "RECV Cls::add this=9 x=4", "RECV Cls::add this=5 x=-1",
+                "RECV Cls::twice x=21", "RECV Cls::twice x=2", "RECV Cls::rename this=9 name=3:[bee]", "RECV Cls::rename this=5 name=0:[]",
+                "RECV Cls::Cls id=100", "RECV Cls::Cls id=101", "RECV findCls id=0", "RECV findCls id=3",
+                "RECV newCls id=7", "RECV Cls::Cls id=7", "RECV Cls::add this=7 x=1",
+                "RECV nextColor c=0", "RECV nextColor c=3", "RECV nextColor c=4",
+                "RECV over(int) a=4", "RECV over(double) a=" + A.rnd(D, -1.5),
+                "RECV dflt a=3 b=2", "RECV dflt a=3 b=4", "RECV dflt a=3 b=5", "RECV dflt a=6 b=2",
+                "RECV tmpl<int> a=41", "RECV tmpl<double> a=" + A.rnd(D, 1.25),
+                "RECV order a=1 b=%s c=5:[three] d=1" % A.rnd(D, 2.5), "RECV order a=-1 b=%s c=0:[] d=0" % A.rnd(D, -2.5),
+                "RECV ns::nsf a=1"]
+    errs = []
+    if rc != 0:
+        errs.append(("run", "scenario", "[%s] exit %d %s" % (lang, rc, (se or "")[-300:])))
+    for g, e in zip(got_obs + ["(missing)"] * len(exp_obs), exp_obs):
+        if g != e:
+            errs.append(("mismatch", "scenario " + e.split()[1], "Python scenario observed %r, expected %r" % (g, e)))
+            break
+    got_recv = [g for g in got_recv if not g.startswith("RECV Cls::~Cls")]  # when Python releases objects is property C06's subject
+    for g, e in zip(got_recv + ["(missing)"] * len(exp_recv), exp_recv):
+        if g != e:
+            errs.append(("mismatch", "scenario trace " + e.split()[1], "Python scenario: library received %r, expected %r" % (g, e)))
+            break
+    if len(got_recv) > len(exp_recv):
+        errs.append(("mismatch", "scenario trace extra", "Python scenario: the library was called %d more time(s) than the model: %r" % (len(got_recv) - len(exp_recv), got_recv[len(exp_recv):][:3])))
+    shutil.rmtree(workdir, ignore_errors=True)
+    return errs, len(exp_obs) + len(exp_recv)
+
+
 def class_funcs():
     """Methods act on the object they are called on: covered through the Cls atoms (two live objects) and
     the class scenario below."""
@@ -210,8 +320,13 @@ def run(ctx):
             elif kind == "crash" and "cls_ptr" in (sig or ""):
                 key = "py: class pointer argument of a free function crashes the interpreter"
             ctx.violation(key, msg, {"kind": kind, "decl": decl, "lang": job[3]})
-    ctx.count(states=len(sigs), transitions=calls, validated=calls)
-    ctx.nontrivial_n(len(sigs))
+    serrs, sn = python_scenario((os.path.join(wd, "scen"), "cxx"))
+    calls += sn
+    for kind, what, msg in serrs:
+        ctx.violation("%s %s" % (kind, what), msg, {"kind": kind, "scenario": True})
+    ctx.part("scenario", items="class constructor, instance / static methods on two objects by position and keyword, class results, enum, overload and template dispatch by Python type, defaults by position and keyword, keyword permutation, namespace module, five refused calls")
+    ctx.count(states=len(sigs) + 1, transitions=calls, validated=calls)
+    ctx.nontrivial_n(len(sigs) + 1)
     ctx.part("libraries", built=len(jobs) + len(rres), function_shapes=len(sigs), calls=calls, not_callable=len(unbuilt),
              not_callable_examples=sorted(unbuilt)[:10])
     ctx.sample({"function": "int fdef1(int a, int b = 2, double c = 1.5)", "call": "M.fdef1(1, b=5)", "expected": "RECV fdef1 a=1 b=5 c=<1.5>; returns 2147483647"})
